@@ -11,6 +11,7 @@ import PhyVerif.Driver.C03
 import PhyVerif.Driver.C06
 import PhyVerif.Driver.C11
 import PhyVerif.Driver.C09
+import PhyVerif.Driver.C08
 open Lean PhyVerif.Driver
 
 def dispatch (j : Json) : R Json := do
@@ -30,6 +31,7 @@ def dispatch (j : Json) : R Json := do
   | "C11" => runC11 op j
   | "C12" => runC12 op j
   | "C09" => runC09 op j
+  | "C08" => runC08 op j
   | _ => .error s!"unknown property {p}"
 
 def handle (line : String) : String :=
